@@ -223,7 +223,7 @@ let run_engine (id, lines) =
     | "xopt" :: [a; b; c; d] -> xopt := Some (z_of_string a, z_of_string b, z_of_string c, z_of_string d)
     | "xstop" :: [i; t; e; l] -> xstops := (int_of_string i, (z_of_string t, z_of_string e, z_of_string l)) :: !xstops
     | "xveh" :: [v; m; q] -> xvehs := (int_of_string v, (z_of_string m, z_of_string q)) :: !xvehs
-    | "usol" :: [kind; k] ->
+    | "usol" :: kind :: k :: _ ->
         usol := !usol @ [(if kind = "balance" then SBalance (z_of_string k) else SMaxPlanned (z_of_string k))]
     | "xmopt" :: [x] -> xmopt := (x = "1")
     | "capobj" :: [r; f; off] -> capobj := !capobj @ [(i2n (int_of_string r), (z_of_string f, z_of_string off))]
